@@ -572,6 +572,29 @@ def run_rules(case):
         return
     if not check_results_shape(site, res):
         return
+    # the answer belongs to the caller: extending it in place (alts = rule_a(..); alts += rule_b(..)) must not change what any
+    # rule answers afterwards -- this rule on the same chord, and this and another rule on a chord they do not apply to
+    snapshot = list(res)
+    res += ["<added by the caller 1>", "<added by the caller 2>"]
+    probes = [(rule, list(before), index, bool(ignore), snapshot)]
+    for other in ("substitute_harmonic", "substitute_diminished_for_dominant"):
+        for numeral in ("Vm", "IIaug"):
+            try:
+                base = getattr(mprog, other)([numeral], 0)
+            except Exception:                                   # noqa
+                continue
+            probes.append((other, [numeral], 0, False, None))
+    for (r2, p2, i2, ig2, want) in probes:
+        ok3, got = call("progressions.%s(%r, %d) after a caller extended an earlier answer in place" % (r2, p2, i2),
+                        getattr(mprog, r2), *((list(p2), i2, True) if ig2 else (list(p2), i2)))
+        S.trans(1)
+        if not ok3 or not isinstance(got, list):
+            continue
+        if "<added by the caller 1>" in got or "<added by the caller 2>" in got or (want is not None and got != want):
+            S.problem("progressions.%s(%r, %d) after the caller extended the answer of %s in place" % (r2, p2, i2, site),
+                      want if want is not None else "an answer without the caller's additions", got, tags={"how": "answer shared with the caller"})
+            return
+    res = snapshot
     if res:
         S.count("nonempty:" + rule)
     else:
@@ -627,7 +650,8 @@ def gen_rules(shard):
 import importlib
 from mingus.core import keys as _mkeys
 
-FIRST_QUESTIONS = ["sevenths", "V7", "tonic7", "to_chords_sevenths", "triads", "vii", "to_chords_triads", "determine_seventh"]
+FIRST_QUESTIONS = ["sevenths", "V7", "tonic7", "to_chords_sevenths", "triads", "vii", "to_chords_triads", "determine_seventh",
+                   "triad_on_bare_letters", "seventh_on_bare_letters"]
 
 
 def _cold_theory():
@@ -660,6 +684,14 @@ def run_call_order(case):
             mprog.to_chords(["I", "IV", "V"], key)
         elif first == "determine_seventh":
             mprog.determine(list(V7[4]), key, True)
+        elif first in ("triad_on_bare_letters", "seventh_on_bare_letters"):
+            # chords.triad / chords.seventh on each of the seven letters, spelled without accidentals (in most keys some of
+            # them are not the key's own spelling of that step; the functions find the step by its letter)
+            for L in "CDEFGAB":
+                try:
+                    (mchords.triad if first.startswith("triad") else mchords.seventh)(L, key)
+                except Exception:                               # noqa -- not the subject here
+                    pass
         elif first.startswith("other:"):
             # the first key this process ever hears of is another one (its relative key, for instance)
             mchords.triads(first[6:])
